@@ -10,6 +10,11 @@ Clause 1 (proxy)       : histories on the session machine against a server and a
                          theorems c16_proxy_*_handover*, monitor lib/props/_spx.py.
 Clause 3 (server)      : cookie Domain and the wildcard route are observed by `wwh cors` per configured domain;
                          the wildcard route is also part of the machine histories (kind p with sso on).
+                         "scopes its cookies to that domain": `wwh ssocookies` - browser histories of SSO deployments (the SSO
+                         server alone and with a real SSO proxy in front of an application): every endpoint, consecutive failures
+                         of every endpoint by every cause request by request, browser-followed retry chains, logins and logouts
+                         in between; every Set-Cookie header of every answer and the jar after every step; model Model/Cookie.v +
+                         Jar.v + Retry.v, theorems c16_server_cookies_scoped_to_domain, c16_proxy_relays_only_domain_scoped_cookies.
 """
 import binascii
 import json
@@ -141,6 +146,92 @@ def monitor_server(ctx, ckfile):
                 if unhex(d).lower() != normal_domain(dom):
                     ctx.violation("c16-server-cookie-domain", "SSO server cookie not scoped to the SSO domain", dict(case, cookie=unhex(name), domain=unhex(d)))
     return n
+
+
+def monitor_cookie_scope(ctx, infile, implfile):
+    """From the property text: "An instance in SSO-server mode ... scopes its cookies to that domain". Read off the browser
+    histories of `wwh ssocookies`:
+      (a) every Set-Cookie header of every answer of the SSO server - successes, error answers, the n-th consecutive failure,
+          whatever cookies the request carried, also when the answer reaches the browser relayed by an SSO proxy - names the
+          SSO domain as Domain, with Path=/ (valid for every host and path under the domain), and carries the attributes the
+          configuration asks for (HttpOnly, Secure as configured, a SameSite attribute, None only if configured);
+      (b) in the browser: whatever the jar returns to the SSO server's host it returns to a sibling host under the SSO domain at
+          the same path and scheme (nothing host-only, nothing under a narrower Path) - also after browser-followed retry chains,
+          whose Set-Cookie headers are not recorded one by one;
+      (c) after a successful login the browser holds no retry counter and no login cookie of the deployment at any URL: what was
+          set with the domain scope is cleared with it."""
+    from lib.props import _cookie as ck
+    sigs = set()
+    stats = {"histories": 0, "set_cookie_headers": 0, "relayed_by_the_sso_proxy": 0, "sibling_comparisons": 0, "successful_logins": 0,
+             "answers_to_a_request_carrying_a_retry_counter": 0}
+    with open(infile) as fi, open(implfile) as fo:
+        for li, lo in zip(fi, fo):
+            if not li.startswith(("cscript ", "cpscript ")):
+                continue
+            sc = ck.Script(li)
+            cfg = sc.cfg
+            if not cfg.sso:
+                continue
+            stats["histories"] += 1
+            res = ck.parse_output(lo, sc)
+            dom = normal_domain(cfg.domain)
+            sibling = "app.example.com"
+            names = {cfg.name(k): k for k in ("session", "login", "logout", "retry")}
+            history = []
+            counter_held = False
+            for it, r in zip(sc.items, res):
+                history.append(ck.describe_item(sc, it))
+                case = {"config": sc.describe(), "history": list(history)}
+                if it["kind"] == "R":
+                    case["status"] = r["status"]
+                    case["set_cookie"] = r["cookies"]
+                    px = it.get("proxy", False)
+                    stats["answers_to_a_request_carrying_a_retry_counter"] += counter_held
+                    for c in r["cookies"]:
+                        stats["set_cookie_headers"] += 1
+                        stats["relayed_by_the_sso_proxy"] += px
+                        sigs.add((names.get(c["name"], c["name"]), c["maxage"] < 0, it["ep"], r["status"], px, counter_held))
+                        who = "relayed to the browser by the SSO proxy" if px else "sent by the SSO server"
+                        if c["domain"].lower() != dom:
+                            ctx.violation("c16-server-cookie-domain", "SSO server cookie not scoped to the SSO domain: a Set-Cookie header %s "
+                                          "has %s instead of Domain=%s" % (who, ("Domain=" + c["domain"]) if c["domain"] else "no Domain attribute (host-only)", dom),
+                                          dict(case, cookie=c))
+                        elif c["path"] != "/":
+                            ctx.violation("c16-server-cookie-path", "SSO server cookie scoped to the SSO domain but not with Path=/: hosts under the "
+                                          "domain get it only below that path (%s)" % who, dict(case, cookie=c))
+                        if not c["httponly"] or (cfg.secure and not c["secure"]) or c["samesite"] not in ("L", "S", "N") or \
+                                (c["samesite"] == "N" and cfg.samesite != "None"):
+                            ctx.violation("c16-server-cookie-attributes", "SSO server cookie without the attributes of the configuration "
+                                          "(HttpOnly, Secure as configured, SameSite present and None only if configured) (%s)" % who, dict(case, cookie=c))
+                else:
+                    case["status_chain"] = r["chain"]
+                # (b) the jar: same answer for the SSO server's host and for a sibling under the domain
+                by = {p: cs for (p, cs) in r["probes"]}
+                if sibling == dom or sibling.endswith("." + dom):
+                    for (https, host, path), cs in by.items():
+                        if host != sc.host or (https, sibling, path) not in by:
+                            continue
+                        stats["sibling_comparisons"] += 1
+                        other = by[(https, sibling, path)]
+                        if sorted(cs) != sorted(other):
+                            url = ("https" if https else "http") + "://%s" + path
+                            ctx.violation("c16-server-cookie-not-shared-with-domain",
+                                          "the browser returns different cookies to the SSO server's own host and to a sibling host under the SSO "
+                                          "domain: a cookie of the SSO server is host-only or scoped to a narrower path",
+                                          dict(case, jar_returns={url % sc.host: cs, url % sibling: other}))
+                            break
+                rn = cfg.name("retry")
+                counter_held = any(n == rn for cs in by.values() for (n, _) in cs)
+                # (c) after a successful login
+                if it["kind"] == "R" and it["ep"] == "C" and r["status"] == 302 and not it.get("proxy", False):
+                    stats["successful_logins"] += 1
+                    left = sorted({("https" if p[0] else "http") + "://" + p[1] + p[2] + " " + names[n] + "=" + v
+                                   for (p, cs) in r["probes"] for (n, v) in cs if names.get(n) in ("retry", "login")})
+                    if left:
+                        ctx.violation("c16-server-cookie-outlives-login", "after a successful login the browser still holds a retry counter / login "
+                                      "cookie of the SSO deployment: it was set with another scope than the one it is cleared with",
+                                      dict(case, jar_still_returns=[(l.split(" ")[0], l.split(" ")[1].replace("=", " = hex ")) for l in left]))
+    return stats, len(sigs)
 
 
 PROXY_INGRESS = ("http", "proxy.wonderwall")
@@ -295,6 +386,22 @@ def run(ctx):
     xst, xnt = _spx.run(ctx, "C16")
     nt += xnt
 
+    # clause 3, "scopes its cookies to that domain": browser histories of SSO deployments (server alone; server + proxy), every
+    # Set-Cookie header of every answer incl. the n-th consecutive failure of every endpoint by every cause, the jar after every step
+    from lib.props import _cookie as ck
+    prec = ctx.path("ssocookies")
+    out, dt = vf.run_driver(["ssocookies", "-out", prec, "-seed", str(ctx.seed), "-tier", ctx.tier] + ck.driver_flags())
+    ctx.timings["ssocookies"] = round(dt, 2)
+    ctx.extra["ssocookies_driver_counts"] = [l for l in out.split("\n") if l.startswith("ssocookies: ")]
+    ctx.correspondence("ssocookies: SSO deployments (real SSO-server router; real SSO proxy in front of it, one jar for the SSO domain): Set-Cookie "
+                       "headers per endpoint x outcome x n-th consecutive failure x cause, browser-followed retry chains, net/http/cookiejar "
+                       "contents vs Model/Cookie.v, Jar.v, Retry.v", prec + ".in", prec + ".impl")
+    cst, cnt = monitor_cookie_scope(ctx, prec + ".in", prec + ".impl")
+    ctx.extra["cookie_scope_monitor"] = cst
+    if cst["set_cookie_headers"] == 0 or cst["answers_to_a_request_carrying_a_retry_counter"] == 0 or cst["sibling_comparisons"] == 0:
+        ctx.broken.append({"kind": "harness", "name": "ssocookies control: no Set-Cookie header / no answer to a request carrying a counter / no sibling comparison observed", "first": cst})
+    nt += cnt
+
     # clause 1 and the wildcard route on the session machine (server and proxy share one wrapped store)
     _mach.run_modes(ctx, ["history"], ["c16"])
     mrule = ctx.rule
@@ -317,7 +424,12 @@ def run(ctx):
                 "random mutations of near-miss origins and random byte strings 0x01..0x7f; distinct_nontrivial = distinct (domain, browser-producible or granted origin, granted?) "
                 "+ distinct proxy request shapes + distinct machine histories. ssoproxy: random histories of proxy requests (every endpoint x method x redirect/locale "
                 "query x cookie class) interleaved with writing server requests and clock advances, on one Redis store. machine-sso: machine scenarios with sso on, "
-                "mostly proxy requests, faults, cancellations, proxy steps interleaved with a writing server request. " + _spx.RULE + ". machine: " + ctx.rule)
+                "mostly proxy requests, faults, cancellations, proxy steps interleaved with a writing server request. "
+                "ssocookies (cookie scope): SSO-server configurations {same-site Lax/None/Strict x domain with/without leading dot x legacy cookie x rate limit, ingress at the root / below a path / "
+                "nested on one host, localhost} x {complete flows, error paths, random histories, the same through a real SSO proxy in front of an application, "
+                "4 consecutive failures of login / callback / logout / local logout by every cause (provider 4xx, 5xx for the retry budget, undecodable, hanging until "
+                "the client's timeout, request cancelled, connection refused; store failing plain / deadline / cancelled) request by request, then success; "
+                "browser-followed retry chains incl. stale counters on nested paths}: every Set-Cookie header, jar probes at the server's host and a sibling host. " + _spx.RULE + ". machine: " + ctx.rule)
     ctx.assumptions += [
         "Origin, method and domain strings are ASCII (bytes < 0x80): Go's strings.ToLower is modelled by ASCII lower-casing; "
         "for non-ASCII input rs/cors applies Unicode lower-casing (e.g. U+212A KELVIN SIGN -> k), which a browser cannot put into an Origin header",
@@ -326,7 +438,9 @@ def run(ctx):
         "(URL.RawPath if set, else URL.Path, as computed by net/url for the request target); the driver reads that path off the real request",
         "the SSO-proxy handlers other than Wildcard, Login and Logout (callbacks, session forwards) have no Coq model: they are checked by the monitor on the real router only; "
         "Login/Logout are modelled for the redirect they hand over (Model/Redirect.v spx_*_handover), not for the acr/locale/prompt parameters",
-        "cookie Domain is observed on the cookies set or cleared by the server's login and logout endpoints (monitor only)",
+        "cookie Domain is observed on the cookies set or cleared by the server's login and logout endpoints by `wwh cors` (monitor only) and on every Set-Cookie "
+        "header of the browser histories of `wwh ssocookies` (model + monitor); browser = net/http/cookiejar without public-suffix list; the sibling host of the "
+        "jar comparison is app.example.com (configurations whose SSO domain does not contain it, e.g. localhost, are compared on the headers only)",
         "SSO domains outside DNS-name syntax (containing '*', ':' ...) are driven through the correspondence but are outside the property's quantifier; "
         "config.SSO.Validate accepts them (see report)",
     ] + _spx.ASSUME
